@@ -35,10 +35,12 @@ type State struct {
 	heap   map[string]string // heap var -> term
 	ghosts map[string]Val
 	alloc  string // allocation counter term
+	gen    int            // id of the last havoc-everything event on this path (0 = none)
+	pend   map[string]int // heap vars havoc'd before their first use: name -> havoc id
 }
 
 func (s *State) clone() *State {
-	n := &State{reach: s.reach, alloc: s.alloc, locals: make(map[*ssa.Alloc]Val, len(s.locals)), heap: make(map[string]string, len(s.heap)), ghosts: make(map[string]Val, len(s.ghosts))}
+	n := &State{reach: s.reach, alloc: s.alloc, gen: s.gen, pend: map[string]int{}, locals: make(map[*ssa.Alloc]Val, len(s.locals)), heap: make(map[string]string, len(s.heap)), ghosts: make(map[string]Val, len(s.ghosts))}
 	for k, v := range s.locals {
 		n.locals[k] = v
 	}
@@ -47,6 +49,9 @@ func (s *State) clone() *State {
 	}
 	for k, v := range s.ghosts {
 		n.ghosts[k] = v
+	}
+	for k, v := range s.pend {
+		n.pend[k] = v
 	}
 	return n
 }
@@ -105,6 +110,7 @@ type Gen struct {
 	structSorts map[string]*Sort
 	heapSorts map[string]string // heap var -> SMT sort
 	assumes []string
+	axioms  []string
 	obls   []*Obligation
 	vals   map[ssa.Value]Val
 	tuples map[ssa.Value][]Val
@@ -130,6 +136,9 @@ type Gen struct {
 	axiomsAdded map[string]bool
 	loopHeadState map[*ssa.BasicBlock]*State
 	rangeVisited map[*ssa.Range]string
+	frameDone bool
+	frameAll  bool
+	frameLocs []frameLoc
 }
 
 type loopInfo struct {
@@ -484,17 +493,31 @@ func (g *Gen) heapGet(st *State, name, sort string) string {
 	if t, ok := st.heap[name]; ok {
 		return t
 	}
-	// first touch: the entry version of this heap variable
+	// first touch: the entry version of this heap variable, unless it was havoc'd on this path
+	// before its first use (then: the version of that havoc event)
 	g.heapSorts[name] = sort
-	n := "H0_" + name
-	g.declare(n, sort)
-	// register in all states that do not have it (entry value is shared)
-	st.heap[name] = n
+	g.declare("H0_"+name, sort)
 	if g.entry != nil {
 		if _, ok := g.entry.heap[name]; !ok {
-			g.entry.heap[name] = n
+			g.entry.heap[name] = "H0_" + name
 		}
 	}
+	id := st.gen
+	if p, ok := st.pend[name]; ok && p > id {
+		id = p
+	}
+	if strings.HasPrefix(name, "GG_") {
+		id = 0
+		if p, ok := st.pend[name]; ok {
+			id = p
+		}
+	}
+	n := "H0_" + name
+	if id > 0 {
+		n = fmt.Sprintf("Hv%d_%s", id, name)
+		g.declare(n, sort)
+	}
+	st.heap[name] = n
 	return n
 }
 
